@@ -28,7 +28,7 @@ from ..tables import TablesError
 PID = "C17"
 ORACLE_PROCS = 4      # exact-arithmetic oracle (pure python); small on purpose: the machine is shared
 PROOF_FILES = ["theories/Props/C17.v", "theories/Checker/TetMesh.v", "theories/Proofs/TetMeshPoly.v",
-               "theories/Proofs/TetMeshCaps.v", "theories/Proofs/TetMeshBodyProofs.v",
+               "theories/Proofs/TetMeshCaps.v", "theories/Proofs/TetMeshCurved.v", "theories/Proofs/TetMeshBodyProofs.v",
                "theories/Proofs/TetMeshBase.v", "theories/Proofs/TetMeshSym.v", "theories/Proofs/TetMeshBox.v",
                "theories/Proofs/TetMeshCyl.v", "theories/Proofs/TetMeshIcoKey.v", "theories/Proofs/TetMeshIcoPure.v",
                "theories/Proofs/TetMeshIco.v", "theories/Proofs/TetMeshHelpers.v"]
@@ -417,6 +417,14 @@ def run(tier, seed, replay=None):
         nonlocal T0
         phases[name] = round(_t.time() - T0, 1)
         T0 = _t.time()
+    # the executable model and the certificate checker first and separately: they must stay available for the
+    # correspondence / certificate runs when a table-dependent theorem no longer builds
+    try:
+        ok_run, log_run = cm.coq_build(["theories/Model/TetMeshRun.vo", "theories/Checker/TetMesh.vo"])
+        if not ok_run:
+            R.proof_broken.append("Model/TetMeshRun.vo or Checker/TetMesh.vo does not build: " + log_run[-300:])
+    except Exception as e:  # noqa: BLE001
+        R.proof_broken.append(f"coq build of the executable model failed: {str(e)[:200]}")
     R.check_proofs(PROOF_FILES, build_targets=["theories/Props/C17.vo", "theories/Model/TetMeshRun.vo",
                                                "theories/Checker/TetMesh.vo"])
     R.cov["tables_regenerated"] = tables_ok
